@@ -38,9 +38,10 @@ VARIABLES disk,     \* durable record [dir, st, cfg, idx]
           waiting,  \* _waiting_dict[sid]
           lock,     \* holder of _access_dict_lock (<<>> = free)
           lockQ,    \* FIFO waiters of the lock
+          outq,     \* per connection: replies scheduled (send tasks created) and not yet written to the socket
           opened,   \* connections in the order they were opened (history, for Serialised)
           ackC, ackX \* acknowledged configuration / index (history, for AckDurable)
-vars == <<disk, ws, inbox, sent, snap, pcM, turn, pcC, reg, waiting, lock, lockQ, opened, ackC, ackX>>
+vars == <<disk, ws, inbox, sent, snap, pcM, turn, pcC, reg, waiting, lock, lockQ, outq, opened, ackC, ackX>>
 
 KindOf(r) == CASE r \in {"cfg1", "cfg2"} -> "config" [] r \in {"up1", "up2"} -> "upload" [] OTHER -> "search"
 NumOf(r) == IF r \in {"cfg1", "up1"} THEN 1 ELSE 2
@@ -50,14 +51,14 @@ Init == /\ disk = [dir |-> FALSE, st |-> 0, cfg |-> 0, idx |-> 0]
         /\ ws = [c \in Conn |-> "new"] /\ inbox = [c \in Conn |-> <<>>] /\ sent = [c \in Conn |-> 0]
         /\ snap = [c \in Conn |-> 0] /\ pcM = [c \in Conn |-> "new"] /\ turn = [c \in Conn |-> FALSE]
         /\ pcC = [c \in Conn |-> "none"] /\ reg = NoC /\ waiting = <<>> /\ lock = <<>> /\ lockQ = <<>>
-        /\ opened = <<>> /\ ackC = 0 /\ ackX = 0
+        /\ outq = [c \in Conn |-> <<>>] /\ opened = <<>> /\ ackC = 0 /\ ackX = 0
 
 (* ---------------- environment ---------------- *)
 PeerSend(c, m) == /\ ws[c] = "open" /\ sent[c] < MaxSend
                   /\ inbox' = [inbox EXCEPT ![c] = Append(@, m)] /\ sent' = [sent EXCEPT ![c] = @ + 1]
-                  /\ UNCHANGED <<disk, ws, snap, pcM, turn, pcC, reg, waiting, lock, lockQ, opened, ackC, ackX>>
+                  /\ UNCHANGED <<disk, ws, snap, pcM, turn, pcC, reg, waiting, lock, lockQ, outq, opened, ackC, ackX>>
 PeerClose(c) == /\ ws[c] = "open" /\ ws' = [ws EXCEPT ![c] = "closed"]
-                /\ UNCHANGED <<disk, inbox, sent, snap, pcM, turn, pcC, reg, waiting, lock, lockQ, opened, ackC, ackX>>
+                /\ UNCHANGED <<disk, inbox, sent, snap, pcM, turn, pcC, reg, waiting, lock, lockQ, outq, opened, ackC, ackX>>
 
 (* ---------------- create_service ---------------- *)
 (* handler start: Service(sid, ws) takes the snapshot; check-and-register without an await *)
@@ -69,51 +70,60 @@ Open(c) == /\ ws[c] = "new" /\ pcM[c] = "new"
                    /\ UNCHANGED <<reg, pcC>>
               ELSE /\ reg' = c /\ pcM' = [pcM EXCEPT ![c] = "serve"]
                    /\ pcC' = [pcC EXCEPT ![c] = "waitClosed"] /\ UNCHANGED waiting
-           /\ UNCHANGED <<disk, inbox, sent, turn, lock, lockQ, ackC, ackX>>
+           /\ UNCHANGED <<disk, inbox, sent, turn, lock, lockQ, outq, ackC, ackX>>
 
 (* `await turn` returns: reload the stored state, start the cleanup task, enter the receive loop *)
 TurnWake(c) == /\ pcM[c] = "waitTurn" /\ turn[c]
                /\ snap' = [snap EXCEPT ![c] = disk.st]
                /\ pcM' = [pcM EXCEPT ![c] = "serve"] /\ pcC' = [pcC EXCEPT ![c] = "waitClosed"]
-               /\ UNCHANGED <<disk, ws, inbox, sent, turn, reg, waiting, lock, lockQ, opened, ackC, ackX>>
+               /\ UNCHANGED <<disk, ws, inbox, sent, turn, reg, waiting, lock, lockQ, outq, opened, ackC, ackX>>
 
 (* ---------------- Service._recv_message: one request ---------------- *)
 (* a handler that refuses raises: the handler task ends and the server closes the socket (1011) *)
 Die(c) == /\ pcM' = [pcM EXCEPT ![c] = "dead"] /\ ws' = [ws EXCEPT ![c] = "closed"]
-Acked(c) == ws[c] = "open"       \* the reply can only be delivered on an open socket
+(* A handler answers by creating a task that writes the reply (comm.send_message): the reply is only SCHEDULED here. *)
+Sched(c, r) == outq' = [outq EXCEPT ![c] = Append(@, r)]
 Recv(c) ==
   /\ pcM[c] = "serve" /\ inbox[c] # <<>>
   /\ inbox' = [inbox EXCEPT ![c] = Tail(@)]
   /\ LET m == Head(inbox[c]) IN
      CASE KindOf(m) = "config" ->
-            IF snap[c] # 0 THEN Die(c) /\ UNCHANGED <<disk, snap, ackC, ackX>>
-            ELSE IF disk.dir THEN Die(c) /\ UNCHANGED <<disk, snap, ackC, ackX>>      \* mkdir: FileExistsError
-            ELSE /\ disk' = [dir |-> TRUE, st |-> 1, cfg |-> NumOf(m), idx |-> disk.idx]
+            IF snap[c] # 0 THEN Die(c) /\ UNCHANGED <<disk, snap, outq>>
+            ELSE /\ disk' = [dir |-> TRUE, st |-> 1, cfg |-> NumOf(m), idx |-> disk.idx]      \* mkdir(exist_ok=True)
                  /\ snap' = [snap EXCEPT ![c] = 1]
-                 /\ ackC' = IF Acked(c) THEN NumOf(m) ELSE ackC
-                 /\ UNCHANGED <<pcM, ws, ackX>>
+                 /\ Sched(c, <<"config", NumOf(m)>>)
+                 /\ UNCHANGED <<pcM, ws>>
        [] KindOf(m) = "upload" ->
-            IF snap[c] # 1 THEN Die(c) /\ UNCHANGED <<disk, snap, ackC, ackX>>
+            IF snap[c] # 1 THEN Die(c) /\ UNCHANGED <<disk, snap, outq>>
             ELSE /\ disk' = IF disk.dir THEN [disk EXCEPT !.idx = NumOf(m), !.st = 2] ELSE disk
                  /\ snap' = [snap EXCEPT ![c] = 2]
-                 /\ ackX' = IF Acked(c) THEN NumOf(m) ELSE ackX
-                 /\ UNCHANGED <<pcM, ws, ackC>>
+                 /\ Sched(c, <<"upload", NumOf(m)>>)
+                 /\ UNCHANGED <<pcM, ws>>
        [] OTHER ->   \* search
-            IF snap[c] # 2 THEN Die(c) /\ UNCHANGED <<disk, snap, ackC, ackX>>
-            ELSE UNCHANGED <<disk, snap, ackC, ackX, pcM, ws>>
-  /\ UNCHANGED <<sent, turn, pcC, reg, waiting, lock, lockQ, opened>>
+            IF snap[c] # 2 THEN Die(c) /\ UNCHANGED <<disk, snap, outq>>
+            ELSE Sched(c, <<"result", disk.idx>>) /\ UNCHANGED <<disk, snap, pcM, ws>>
+  /\ UNCHANGED <<sent, turn, pcC, reg, waiting, lock, lockQ, opened, ackC, ackX>>
+(* the send task runs: the reply reaches the client only if the socket is still open (a handler that failed in the *)
+(* meantime has already put the connection into the closing state, and the reply is lost)                          *)
+Deliver(c) ==
+  /\ outq[c] # <<>>
+  /\ outq' = [outq EXCEPT ![c] = Tail(@)]
+  /\ LET r == Head(outq[c]) IN
+     /\ ackC' = IF ws[c] = "open" /\ r[1] = "config" THEN r[2] ELSE ackC
+     /\ ackX' = IF ws[c] = "open" /\ r[1] = "upload" THEN r[2] ELSE ackX
+  /\ UNCHANGED <<disk, ws, inbox, sent, snap, pcM, turn, pcC, reg, waiting, lock, lockQ, opened>>
 (* the receive loop ends when the socket is closed and the buffer is empty *)
 RecvEnd(c) == /\ pcM[c] = "serve" /\ inbox[c] = <<>> /\ ws[c] = "closed"
               /\ pcM' = [pcM EXCEPT ![c] = "done"]
-              /\ UNCHANGED <<disk, ws, inbox, sent, snap, turn, pcC, reg, waiting, lock, lockQ, opened, ackC, ackX>>
+              /\ UNCHANGED <<disk, ws, inbox, sent, snap, turn, pcC, reg, waiting, lock, lockQ, outq, opened, ackC, ackX>>
 
 (* ---------------- clean_service_when_close_connection ---------------- *)
 CleanWake(c) == /\ pcC[c] = "waitClosed" /\ ws[c] = "closed"
                 /\ IF LockFree THEN lock' = <<c>> /\ pcC' = [pcC EXCEPT ![c] = "sleep"] /\ UNCHANGED lockQ
                    ELSE lockQ' = Append(lockQ, c) /\ pcC' = [pcC EXCEPT ![c] = "locked"] /\ UNCHANGED lock
-                /\ UNCHANGED <<disk, ws, inbox, sent, snap, pcM, turn, reg, waiting, opened, ackC, ackX>>
+                /\ UNCHANGED <<disk, ws, inbox, sent, snap, pcM, turn, reg, waiting, outq, opened, ackC, ackX>>
 CleanGotLock(c) == /\ pcC[c] = "locked" /\ lock = <<c>> /\ pcC' = [pcC EXCEPT ![c] = "sleep"]
-                   /\ UNCHANGED <<disk, ws, inbox, sent, snap, pcM, turn, reg, waiting, lock, lockQ, opened, ackC, ackX>>
+                   /\ UNCHANGED <<disk, ws, inbox, sent, snap, pcM, turn, reg, waiting, lock, lockQ, outq, opened, ackC, ackX>>
 Release == IF lockQ = <<>> THEN lock' = <<>> /\ lockQ' = lockQ
            ELSE lock' = <<Head(lockQ)>> /\ lockQ' = Tail(lockQ)
 (* (A1) asyncio ordering: the close event that wakes the cleanup task also wakes the receive loop of the  *)
@@ -127,14 +137,14 @@ TimerFire(c) ==
   /\ IF waiting = <<>>
      THEN reg' = NoC /\ UNCHANGED <<waiting, turn>>
      ELSE reg' = Head(waiting) /\ waiting' = Tail(waiting) /\ turn' = [turn EXCEPT ![Head(waiting)] = TRUE]
-  /\ UNCHANGED <<ws, inbox, sent, snap, pcM, opened, ackC, ackX>>
+  /\ UNCHANGED <<ws, inbox, sent, snap, pcM, outq, opened, ackC, ackX>>
 
 Next == \E c \in Conn :
           \/ Open(c) \/ PeerClose(c) \/ (\E m \in Req : PeerSend(c, m))
-          \/ TurnWake(c) \/ Recv(c) \/ RecvEnd(c)
+          \/ TurnWake(c) \/ Recv(c) \/ Deliver(c) \/ RecvEnd(c)
           \/ CleanWake(c) \/ CleanGotLock(c) \/ TimerFire(c)
 Spec == Init /\ [][Next]_vars
-FairSpec == Spec /\ \A c \in Conn : WF_vars(TurnWake(c) \/ Recv(c) \/ RecvEnd(c) \/ CleanWake(c) \/ CleanGotLock(c) \/ TimerFire(c))
+FairSpec == Spec /\ \A c \in Conn : WF_vars(TurnWake(c) \/ Recv(c) \/ Deliver(c) \/ RecvEnd(c) \/ CleanWake(c) \/ CleanGotLock(c) \/ TimerFire(c))
 
 (* ---------------- Layer A clauses at model level ---------------- *)
 Before(i, c) == \E a, b \in 1..Len(opened) : a < b /\ opened[a] = i /\ opened[b] = c
@@ -146,6 +156,10 @@ AckDurable == (ackC # 0 => disk.cfg = ackC) /\ (ackX # 0 => disk.idx = ackX /\ d
 WellFormed == ((disk.st = 0) <=> (disk.cfg = 0)) /\ ((disk.st = 2) <=> (disk.idx # 0))
 SnapFresh  == \A c \in Conn : pcM[c] = "serve" => snap[c] = disk.st     \* the served connection acts on the current state
 RegIsServed == reg # NoC => pcM[reg] \in {"serve", "done", "dead", "waitTurn"}
+(* Refinement: under the mapping "abstract state = durable record", every behaviour of this implementation model *)
+(* is a behaviour of the 3-state reference machine of C10 (refused requests, scheduling and cleanup steps stutter). *)
+SM == INSTANCE ServerSM WITH st <- disk.st, cfg <- disk.cfg, idx <- disk.idx, Cfgs <- {1, 2}, Idxs <- {1, 2}
+RefinesServerSM == SM!SMSpec
 (* liveness (under FairSpec): once everybody before it has closed, a waiting connection gets its turn *)
 EventuallyServed == \A c \in Conn : (pcM[c] = "waitTurn" /\ \A i \in Conn : Before(i, c) => ws[i] = "closed") ~> (pcM[c] # "waitTurn")
 =============================================================================
